@@ -583,6 +583,14 @@ def run():
     settle("text report: a path read back equals the path written", "report-path", "path-roundtrip", results, nb)
     settle("text report: a report cut inside a path line is rejected", "report-truncation", "truncation", results, nb + ", cuts of 1..4 bytes")
     settle("text report: the base dir read back equals the base dir written", "report-base-dir", "base-dir", bres, "%d shapes" % len(bshapes))
+    # JSON format: serde_json is a leaf, but what is handed to it is fclones' code - a path is serialised as the escaped string whose
+    # round trip is decided above, and deserialised with the inverse function
+    try:
+        json_path_obligations(rep, prog)
+    except Inconclusive as ex:
+        o = Obligation("JSON path strings", "E2 mirsym/z3")
+        o.verdict, o.detail = "inconclusive", str(ex)
+        rep.add(o)
     # the `# Command:` header line is arg::join of the argument vector, read back with arg::split: the quote/split obligations
     # of C17 are obligations of C10 as well (same encoding, same bounds)
     try:
@@ -604,3 +612,55 @@ def role_of(oracle, c):
     if oracle == "truncation":
         return "cut-inside-last-path-line"
     return "base-dir-not-decoded-or-trimmed"
+
+
+def json_path_obligations(rep, prog):
+    import optsum
+    import summaries
+    from mirsym import EnumV, Lazy
+    sers = [f for n, f in prog.fns.items() if "path.rs" in n and n.endswith("::serialize")]
+    vis = [f for n, f in prog.fns.items() if "path.rs" in n and n.endswith("::visit_str")]
+    if len(sers) != 1 or len(vis) != 1:
+        raise Inconclusive("Serialize / Visitor impls of Path: %d / %d found" % (len(sers), len(vis)))
+    eng = oblig.engine(prog, inline=None, extra=dict(optsum.SUMMARIES))
+    f = sers[0]
+    a = [Lazy("a%d" % i, t) for i, (n, t) in enumerate(f.args)]
+    ps = eng.run(f, args=a)
+
+    def sprop(p):
+        if p.status != "return":
+            return z3.BoolVal(False)
+        st = mirsym.State()
+        st.mem, st.pc = p.mem, list(p.pc)
+        out = [ev for ev in p.events if ev.kind == "call" and re.search(r"Serializer>::(collect_str|serialize_str)$", ev.callee)]
+        esc = [ev for ev in p.events if ev.kind == "call" and re.search(r"Path::to_escaped_string$", ev.callee) and ev.args and ev.args[0] is a[0]]
+        if len(out) != 1 or len(esc) != 1 or p.result is not out[0].ret:
+            return z3.BoolVal(False)
+        # the string handed to the serializer is a view of the escaped string
+        v = out[0].args[1]
+        for _ in range(4):
+            cn = summaries.canon(eng, st, v)
+            if cn.lstrip("&") == esc[0].ret.name:
+                return z3.BoolVal(True)
+            prod = [ev for ev in p.events if ev.kind == "call" and isinstance(ev.ret, Lazy) and ev.ret.name == cn.lstrip("&") and ev.args]
+            if not prod or not re.search(r"as_str$|as_ref$|[Dd]eref|borrow$", prod[0].callee):
+                break
+            v = prod[0].args[0]
+        return z3.BoolVal(False)
+    rep.add(oblig.check_paths(eng, ps, "JSON: a path is serialised as its escaped string (Path::to_escaped_string), nothing else", sprop, oblig.fnames(eng),
+                              key="json:path-serialize"))
+    f = vis[0]
+    a2 = [Lazy("b%d" % i, t) for i, (n, t) in enumerate(f.args)]
+    ps = eng.run(f, args=a2)
+
+    def vprop(p):
+        if p.status != "return" or not isinstance(p.result, EnumV):
+            return z3.BoolVal(False)
+        dec = [ev for ev in p.events if ev.kind == "call" and re.search(r"Path::from_escaped_string$", ev.callee) and ev.args and ev.args[0] is a2[1]]
+        if len(dec) != 1 or not isinstance(dec[0].ret, Lazy):
+            return z3.BoolVal(False)
+        ok = z3.BitVec(mirsym.sanitize(dec[0].ret.name + "#d"), 64) == 0
+        payload = p.result.variant != "Ok" or (isinstance(p.result.fields.get(0), Lazy) and p.result.fields[0].name.startswith(dec[0].ret.name + "@Ok"))
+        return z3.And(z3.BoolVal(p.result.variant == "Ok") == ok, z3.BoolVal(bool(payload)))
+    rep.add(oblig.check_paths(eng, ps, "JSON: a path string is decoded with Path::from_escaped_string; Ok iff decoding succeeded, the decoded path is returned", vprop,
+                              oblig.fnames(eng), key="json:path-deserialize"))
